@@ -151,10 +151,11 @@ def gen_events(planet, fn, variant, seed, n):
     while len(seen) < n and tries < 5 * n:
         tries += 1
         q = rng.uniform(J_M2000 + P, J_4000 - P)
+        qy = int(Epoch(q).get_date()[0])
         try:
             r = _call(planet, fn, variant, q)
         except Exception as ex:
-            yield {"k": "ev", "f": name, "site": name, "fn": fn, "v": variant, "kind": "none", "oc": _oc(ex), "qf": q,
+            yield {"k": "ev", "f": name, "site": name, "fn": fn, "v": variant, "kind": "none", "oc": _oc(ex), "qf": q, "y": qy,
                    "s": [BAD] * 5, "rep": BAD, "aux": fx(0), "tol": fx(tol), "rf": 0.0}
             continue
         rep = 0.0
@@ -200,10 +201,10 @@ def gen_events(planet, fn, variant, seed, n):
                 s = [_helio(planet, t)[1] for t in ts]
                 kind = "node"
         except Exception as ex:
-            yield {"k": "ev", "f": name, "site": name, "fn": fn, "v": variant, "kind": "none", "oc": "pos:" + _oc(ex), "qf": q,
+            yield {"k": "ev", "f": name, "site": name, "fn": fn, "v": variant, "kind": "none", "oc": "pos:" + _oc(ex), "qf": q, "y": qy,
                    "s": [BAD] * 5, "rep": BAD, "aux": fx(0), "tol": fx(tol), "rf": rj}
             continue
-        yield {"k": "ev", "f": name, "site": name, "fn": fn, "v": variant, "kind": kind, "oc": "ok", "qf": q, "rf": rj,
+        yield {"k": "ev", "f": name, "site": name, "fn": fn, "v": variant, "kind": kind, "oc": "ok", "qf": q, "y": qy, "rf": rj,
                "s": [fx(v) for v in s], "rep": fx(rep), "aux": fx(aux), "tol": fx(tol), "sf": s}
 
 
